@@ -571,6 +571,7 @@ class SiteScanner(ast.NodeVisitor):
         self.stack = []
         self.iter_sites = []
         self.write_sites = []
+        self.origins = []
 
     def qual(self):
         return ".".join(self.stack) or "<module>"
@@ -582,7 +583,9 @@ class SiteScanner(ast.NodeVisitor):
 
     def visit_FunctionDef(self, node):
         self.stack.append(node.name)
+        self.origins.append({})
         self.generic_visit(node)
+        self.origins.pop()
         self.stack.pop()
 
     visit_AsyncFunctionDef = visit_FunctionDef
@@ -643,6 +646,8 @@ class SiteScanner(ast.NodeVisitor):
     def visit_Assign(self, node):
         for tgt in node.targets:
             self._store(tgt, "assign")
+            if isinstance(tgt, ast.Name) and self.origins:
+                self.origins[-1][tgt.id] = ast.unparse(node.value)
         self.generic_visit(node)
 
     def visit_AnnAssign(self, node):
@@ -652,7 +657,9 @@ class SiteScanner(ast.NodeVisitor):
 
     def visit_AugAssign(self, node):
         if isinstance(node.target, ast.Name):
-            self.write_sites.append((self.path, self.qual(), "augassign-name", node.target.id))
+            # record where the local name came from: `x = list(...)` (fresh) vs `x = obj.attr` (alias)
+            origin = self.origins[-1].get(node.target.id, "?") if self.origins else "?"
+            self.write_sites.append((self.path, self.qual(), "augassign-name", f"{node.target.id} := {origin}"))
         else:
             self._store(node.target, "augassign")
         self.generic_visit(node)
@@ -716,6 +723,14 @@ def gen_sites():
         "/-- every iteration whose iterable is syntactically an unordered collection -/",
         "def iterSites : List Site := [",
         ",\n".join(f"  ⟨{lean_str(a)}, {lean_str(b)}, {lean_str(d)}, {lean_str(c)}⟩" for a, b, c, d in sorted(iter_sites)),
+        "]",
+        "",
+        "/-- write sites other than `self.x = …` inside `__init__` and `cls.x = …` inside `ObjectMeta.__new__`",
+        "    (construction of the very object being created) -/",
+        "def notableWriteSites : List Site := [",
+        ",\n".join(f"  ⟨{lean_str(a)}, {lean_str(b)}, {lean_str(c)}, {lean_str(d)}⟩" for a, b, c, d in sorted(write_sites)
+                    if not (c == "assign" and d.startswith("self.") and b.endswith(".__init__"))
+                    and not (b == "ObjectMeta.__new__" and d.startswith("cls."))),
         "]",
         "",
         "/-- every store, augmented assignment, deletion, mutator call, setattr and cache decorator -/",
